@@ -22,7 +22,7 @@ type scenario struct {
 	// crash injection: before the crashAt-th primitive step (send/timeout/pump
 	// call, 1-based) node crashNode is crashed and restarted; 0 = never
 	stepNo, crashAt, crashNode int
-	hold map[int]bool // nodes whose block-manager requests are NOT completed automatically
+	hold                       map[int]bool // nodes whose block-manager requests are NOT completed automatically
 }
 
 func (sc *scenario) tick() {
